@@ -390,12 +390,19 @@ func (ab *rulesPair) equalizeGroups(ra, rb *nsxRule) []change {
 }
 
 func sortRules(l []*nsxRule, m map[string]*nsxGroup) {
+	// First IP address of group or "" if group is empty.
+	firstAddr := func(g *nsxGroup) string {
+		if l := g.Expression[0].IPAddresses; len(l) > 0 {
+			return l[0]
+		}
+		return ""
+	}
 	elementCmp := func(ei, ej string) int {
 		gi := getGroup(ei, m)
 		gj := getGroup(ej, m)
 		if gi != nil {
 			if gj != nil {
-				return cmp.Compare(gi.Expression[0].IPAddresses[0], gj.Expression[0].IPAddresses[0])
+				return cmp.Compare(firstAddr(gi), firstAddr(gj))
 			}
 			return -1
 		}
